@@ -90,7 +90,7 @@ def run(ctx):
         pth = e.get("pinned_input")
         if pth and os.path.exists(os.path.join(vlib.VERIF, pth)):
             pinned.append((e, json.load(open(os.path.join(vlib.VERIF, pth)))))
-    kinds = sorted(optlib.GLOBAL_KINDS)
+    kinds = sorted(optlib.GLOBAL_KINDS) + sorted(optlib.DEPTH_KINDS)
 
     root = os.path.join(ctx.work, "c05")
     os.makedirs(root)
